@@ -630,7 +630,7 @@ pub fn exec(dev: &mut Device, x: &RespondSpec, log: &mut Log) -> Option<Finding>
 
 pub fn plan(tier: &str) -> u64 {
     match tier {
-        "thorough" => 20_000,
+        "thorough" => 80_000,
         "selfcheck" => 20_000,
         _ => 1_000,
     }
